@@ -1002,9 +1002,8 @@ def c16(tier):
                     ("WelfordOnline", "window"), ("WelfordRolling", "rolling"), ("Min", "window"), ("HLNormalizer", "window"), ("Vsct", "window"),
                     ("CenterOfGravity", "window"), ("CorrelationTrendIndicator", "window"), ("Roc", "window"), ("Vst", "window"),
                     ("NoiseEliminationTechnology", "window"), ("BinaryEntropy", "window"), ("Max", "window")):
-        for n in ((5, 16) if tier == "quick" else (3, 16, 64)):
-            if k in ("CenterOfGravity", "CorrelationTrendIndicator", "Roc", "Vst", "NoiseEliminationTechnology", "BinaryEntropy", "Max") and tier == "quick" and n == 5:
-                continue
+        newer = k in ("CenterOfGravity", "CorrelationTrendIndicator", "Roc", "Vst", "NoiseEliminationTechnology", "BinaryEntropy", "Max")
+        for n in (((3, 16) if newer else (5, 16)) if tier == "quick" else (3, 16, 64)):
             cfg = {"k": k} if k == "WelfordRolling" else {"k": k, "n": n}
             # values k/1000, 10 <= k <= 10000 in multiples of 10: non-zero magnitudes and non-zero steps both span three decades
             long_streams.append({"cfg": cfg, "unit": 1000, "mode": mode, "eps": [1, 1000000], "float": "f64",
